@@ -294,6 +294,12 @@ class Cache2D:
                                               epsrel=1e-3, epsabs=1e-4, args=[params])
         fs += spectra[-1,-1]*weight
 
+        # Both strongly deleterious
+        weight, err = scipy.integrate.dblquad(sel_dist, min_gamma, np.inf,
+                                              lambda _: min_gamma, lambda _: np.inf,
+                                              epsrel=1e-3, epsabs=1e-4, args=[params])
+        fs += spectra[0,0]*weight
+
         # Neutral gamma2, strongly deleterious gamma1
         weight, err = scipy.integrate.dblquad(sel_dist, 0, max_gamma,
                 lambda _: min_gamma, lambda _: np.inf,
